@@ -144,13 +144,29 @@ polynomial only if the η-combinations of the claimed and true vectors coincide.
 theorem verify_multi_points_iff (g g2 τ : F) (D m : Nat) (ps : List (List F)) (pts : List F)
     (claimed : List (List F)) (η π : F) (hps : ps ≠ []) (hlen : ∀ p ∈ ps, p.length ≤ D + 1)
     (hnd : pts.Nodup) (hm : pts.length ≤ m) (hD : m ≤ D) (hcl : claimed.length = ps.length)
+    (hrows : ∀ e ∈ claimed, e.length = pts.length)
     (hπ : Time.batchOpenMultiPoints (CK.new g g2 τ D m) ps pts η = .ok π) (vk : VK F)
     (hvk : VK.ofTime (CK.new g g2 τ D m) = .ok vk
       ∨ VK.ofSpace (CKS.ofTime (CK.new g g2 τ D m)) = .ok vk) :
     verifyMultiPoints vk (Time.batchCommit (CK.new g g2 τ D m) ps) pts claimed π η = .ok true
       ↔ g * g2 * (interpAt pts claimed η τ
           - interpAt pts (ps.map (fun p => pts.map (evalPoly p))) η τ) = 0 :=
-  SKZG.verifyMulti_new_iff g g2 τ D m ps pts claimed η π hps hlen hnd hm hD hcl hπ vk hvk
+  SKZG.verifyMulti_new_iff g g2 τ D m ps pts claimed η π hps hlen hnd hm hD hcl hrows hπ vk hvk
+
+/-- **Out of the verifier key's domain: refused.** More evaluation points than the key was made for,
+or an evaluation table that does not have one row per commitment and one entry per point, is rejected
+whatever proof and values are presented (the repair of D20: the multi-scalar multiplications would
+otherwise truncate the vanishing polynomial and the interpolant, and the truncated equation can be
+satisfied with false evaluations computed from public data). -/
+theorem verify_multi_points_out_of_shape (vk : VK F) (comms pts : List F) (evals : List (List F))
+    (π η : F)
+    (h : pts.length ≥ vk.powersOfG2.length ∨ pts.length > vk.powersOfG.length ∨
+      comms.length ≠ evals.length ∨ ∃ e ∈ evals, e.length ≠ pts.length) :
+    verifyMultiPoints vk comms pts evals π η = .ok false :=
+  SKZG.verifyMulti_out_of_shape_refused vk comms pts evals π η h
+
+/-- non-vacuity: a key for one point (two G2 powers) presented with two points -/
+example : verifyMultiPoints (⟨[3], [5, 10]⟩ : VK K) [7] [4, 9] [[1, 2]] 6 1 = .ok false := by decide
 
 /-- **A changed evaluation is rejected by `verify_multi_points`**: the value of polynomial `a` at
 point `b` shifted by `δ ≠ 0` (`SKZG.bumpAt`), non-trivial generators, batching challenge `η ≠ 0`
